@@ -51,6 +51,65 @@ def humans_on_join(human_bells, user_name=None, wheatley_bells=None):
     return msgs
 
 
+def argv_for(sc):
+    """The command line that stands for this scenario's configuration, when there is one (console mode): the
+    session can then be run through the real `wheatley.main.main(argv)` instead of building the objects by hand,
+    which puts the wiring of every option under the same oracles.  None when the configuration cannot be
+    expressed on the command line."""
+    bot, rh = sc.get("bot"), sc.get("rhythm")
+    if not bot or not rh or bot.get("server_id") is not None or sc.get("look_to_time") is not None:
+        return None
+    if rh.get("kind") not in ("wait", "regression") or b2f(rh.get("initial_inertia", f2b(0.0))) != 0.0:
+        return None
+    g = bot["gen"]
+    ty = g.get("type")
+    argv = [str(sc.get("tower_id", 763451928)), "--url", "http://fake-rr"]
+    sr = g.get("start_row")
+    if ty in ("plainhunt", "grandsire", "stedman", "dixon"):
+        if not 3 <= g["stage"] <= 16:
+            return None
+        title = {"plainhunt": "Plain Hunt", "grandsire": "Grandsire", "stedman": "Stedman", "dixon": "Dixon's Bob"}[ty]
+        if ty == "grandsire" and g["stage"] < 5 or ty == "stedman" and (g["stage"] < 5 or g["stage"] % 2 == 0) \
+                or ty == "dixon" and g["stage"] != 6:
+            return None
+        argv += ["--method", f"{title} {g['stage']}"]
+    elif ty == "pn":
+        if any(c in g["method"] for c in ":") or not 1 <= g["stage"] <= 16:
+            return None
+        argv += ["-p", f"{g['stage']}:{g['method']}"]
+        for key, opt in (("bob", "--bob"), ("single", "--single")):
+            d = g.get(key)
+            if d is not None:
+                if not d or any("/" in pn or ":" in pn for _, pn in d):
+                    return None            # (an empty definition cannot be written on the command line)
+                argv += [opt + "=" + "/".join(f"{pos}:{pn}" for pos, pn in d)]
+        if g.get("start_index"):
+            argv += ["--start-index", str(g["start_index"])]
+    elif ty == "comp":
+        if sr is not None:
+            return None
+        argv += ["--comp", str(g.get("id", 1))]
+    else:
+        return None
+    if sr is not None:
+        argv += ["--start-row", sr]
+    if bot.get("up_down_in") and bot.get("stop_at_rounds"):
+        argv += ["-H"] if len(argv) % 2 else ["-u", "-s"]
+    elif bot.get("up_down_in"):
+        argv += ["-u"]
+    elif bot.get("stop_at_rounds"):
+        argv += ["-s"]
+    if not bot.get("call_comps", True):
+        argv += ["--no-calls"]
+    if bot.get("user_name") is not None:
+        argv += ["--name", bot["user_name"]]
+    if rh["kind"] == "regression":
+        argv += ["-k"]
+    argv += ["-I", repr(b2f(rh["inertia"])), "-S", str(rh["peal_speed"]), "-G", repr(b2f(rh["gap"])),
+             "-X", str(rh["max_bells"])]
+    return argv
+
+
 class Follower:
     """Reactive human(s): every `poll` seconds looks at the turn Wheatley is at (`sim.View`: what the Bot
     told its rhythm object) and strikes its own bell `lag(r, p)` seconds after it became due."""
@@ -93,8 +152,19 @@ class WorldProp(Prop):
     def agents(self, req):
         return None
 
+    via_main_share = 0.35
+
     def impl(self, req):
-        res = sim.run(req["scenario"], self.agents(req))
+        sc = req["scenario"]
+        argv = argv_for(sc)
+        if argv is not None and "argv" not in sc:
+            import hashlib
+            import json
+            h = int(hashlib.sha1(json.dumps(sc, sort_keys=True, default=str).encode()).hexdigest()[:8], 16)
+            if (h % 1000) / 1000.0 < self.via_main_share:
+                sc = dict(sc, argv=argv)      # this session goes through the real main(argv)
+                req["via_main"] = True
+        res = sim.run(sc, self.agents(req))
         req["_model_req"] = sim.model_request(req["scenario"], res["sim"])
         rep = sim.impl_reply(res)
         rep["strikes"] = [[f2b(t), b, by] for (t, b, by) in res["sim"].strikes]
